@@ -94,17 +94,22 @@ def main():
         sh(["git", "-C", REPO, "clean", "-fdq", "--", "."])
     rc, out = sh(["git", "-C", REPO, "status", "--porcelain"])
     assert out.strip() == "", "/repo not restored: " + out
+    harmless = meta.get("kind") == "harmless"
+    res["kind"] = "harmless" if harmless else "breaking"
     valid = res["apply"]["rc"] == 0 and res.get("build", {}).get("rc") == 0 and res.get("existing_tests", {}).get("rc") == 0 \
-        and res["demo_unchanged"]["rc"] == 0 and res.get("demo_changed", {}).get("rc", 0) != 0
+        and res["demo_unchanged"]["rc"] == 0 and ((res.get("demo_changed", {}).get("rc", 1) == 0) if harmless
+                                                  else (res.get("demo_changed", {}).get("rc", 0) != 0))
     res["valid_seed"] = valid
     res["detected"] = any(c["rc"] == 1 and c.get("violation") for c in res.get("checks", {}).values())
+    if harmless:  # a harmless refactoring: every check should stay at exit 0
+        res["alarm"] = any(c["rc"] != 0 for c in res.get("checks", {}).values())
     dst = os.path.join(ROOT, "seeded", name)
     shutil.rmtree(dst, ignore_errors=True)
     os.makedirs(dst)
     shutil.copyfile(patch, os.path.join(dst, "patch.diff"))
     shutil.copytree(os.path.join(src, "demo"), os.path.join(dst, "demo"))
     json.dump(res, open(os.path.join(dst, "meta.json"), "w"), indent=1)
-    print(json.dumps({k: res[k] for k in ("seed", "valid_seed", "detected")}))
+    print(json.dumps({k: res[k] for k in ("seed", "kind", "valid_seed", "detected", "alarm") if k in res}))
     for p, c in res.get("checks", {}).items():
         for l in c["lines"][:4]:
             print("  ", p, l[:200])
